@@ -315,6 +315,8 @@ theorem evalC_post (v t op) : evalC ms σ (.post v t op) = .error (.undef "hybri
 theorem evalC_call (n a r p) : evalC ms σ (.call n a r p) = .error (.undef "hybrid: use evalCH") := by rw [evalC]
 theorem evalC_stmtexpr (t v e) : evalC ms σ (.stmtexpr t v e) = .error (.undef "hybrid: use evalCH") := by rw [evalC]
 theorem evalC_seqexpr (n x a p v) : evalC ms σ (.seqexpr n x a p v) = .error (.undef "hybrid: use evalCH") := by rw [evalC]
+theorem evalC_callx (n x a r p) : evalC ms σ (.callx n x a r p) = .error (.undef "hybrid: use evalCH") := by rw [evalC]
+theorem evalC_xmacro (n x r) : evalC ms σ (.xmacro n x r) = .error (.undef "pass-through macro: use evalCH") := by rw [evalC]
 
 theorem evalCArgs_nil (ps) : evalCArgs ms σ [] ps = .ok [] := by rw [evalCArgs]
 theorem evalCArgs_cons_nil (a as) : evalCArgs ms σ (a :: as) [] = .error (.sort "macro arity") := by rw [evalCArgs]
